@@ -103,6 +103,8 @@ def generate(rng, idx, tier, variant):
             if 'preexisting' in placed:
                 ops.append({'op': 'poke', 'name': rng.choice(names), 'pos': tn, 'v': rng.choice(['nan', 'inf'])})
         ops.append(op)
+        if rng.random() < 0.12:
+            ops.append({'op': 'copy', 'route': rng.choice(['copy', 'copy.copy', 'deepcopy'])})
         if rng.random() < 0.2:
             ops.append({'op': 'add_variable', 'name': f'N{len(ops)}', 'v': rng.choice(S.DYADS)})
         elif rng.random() < 0.2:
@@ -183,6 +185,7 @@ def execute(schedule, ctx):
         ctx.probe('tracer-combined-with-alias-mixin')
     if spec['span']['type'] == 'list_dup':
         ctx.probe('repeated-labels-positional-solve')
+    kept = []  # (original left behind by a copy, observation of its traces at that moment)
     # what each period's trace is expected to hold so far: (names, labels, columns)
     expected = {p: {'names': None, 'labels': [], 'cols': []} for p in range(n)}  # names None <=> trace still empty
 
@@ -194,6 +197,19 @@ def execute(schedule, ctx):
                     m.__dict__['_' + op['name']][op['pos']] = probes.fval(op['v'])
             ctx.log(step, 'poke')
             ctx.outcome('poke', 'ok')
+            continue
+        if op['op'] == 'copy':
+            # from here on the history continues on copies; what the originals recorded must stay as it is
+            import copy as _copy
+
+            mk = (lambda m: m.copy()) if op['route'] == 'copy' else _copy.copy if op['route'] == 'copy.copy' else _copy.deepcopy
+            kept.append((A, _trace_obs(A)))
+            A, B, C = mk(A), mk(B), mk(C)
+            for m in (A, B, C):
+                probes.get_ctl(m).columns = True
+            ctx.probe('history:copy')
+            ctx.log(step, 'copy')
+            ctx.outcome('copy', 'ok')
             continue
         if op['op'] == 'add_variable':
             for m in (A, B, C):
@@ -337,6 +353,14 @@ def execute(schedule, ctx):
                     ctx.probe('trace-of-unsolved-period:' + str(labels[-1] if isinstance(labels[-1], str) else 'pass'))
             _check_traces(A, expected, chk, n, entry)
 
+        for orig_, tobs_ in kept:
+            chk('fidelity/original-trace-changed-by-solving-its-copy', _trace_obs(orig_) == tobs_, None)
+        # a period that this call left solved has a trace ending in 'end' (when it was traced without reset)
+        if tracing and not respec and not reset:
+            for p in attempted:
+                if expected[p]['labels'] is not None and str(pA['status'][p]) == '.' and oA['kind'] == 'return':
+                    got_ = [str(x) for x in A.__dict__['_trace'][p].index]
+                    chk('fidelity/solved-period-trace-ends-with-end', bool(got_) and got_[-1] == 'end', {'period': p, 'labels': got_[-4:]})
         ctx.log(step, entry, _cls(oA), _cls(oB), [str(x) for x in pA['status'].tolist()], pA['iterations'].tolist(), [[str(x) for x in t_.index] for t_ in A.__dict__['_trace']])
         ctx.outcome(entry, f"{_cls(oA)}:{'reset' if reset else ''}")
         ctx.state([entry, _cls(oA), [len(t_.index) for t_ in A.__dict__['_trace']], [str(x) for x in pA['status'].tolist()]])
@@ -345,6 +369,10 @@ def execute(schedule, ctx):
             for nm, arr in pA.items():
                 if nm != 'trace' and nm in m.__dict__['index']:
                     m.__dict__['_' + nm][:] = arr
+
+
+def _trace_obs(m):
+    return [[list(map(str, t_.names)), [str(x) for x in t_.index], canon(np.asarray(t_.values).tolist())] for t_ in m.__dict__['_trace'].tolist()]
 
 
 def _ret_eq(a, b):
